@@ -956,8 +956,8 @@ class CPreProcessor:
 
     OP_MAP = {
         "*": (11, False, operator.mul),
-        "/": (11, False, operator.floordiv),
-        "%": (11, False, operator.mod),
+        "/": (11, False, lambda x, y: _c_divide(x, y)),
+        "%": (11, False, lambda x, y: x - y * _c_divide(x, y)),
         "+": (10, False, operator.add),
         "-": (10, False, operator.sub),
         "<<": (9, False, operator.lshift),
@@ -1121,6 +1121,12 @@ class CPreProcessor:
         else:  # pragma: no cover
             raise NotImplementedError(str(expr))
         return value
+
+
+def _c_divide(x, y):
+    """Integer division as in C: truncate toward zero."""
+    q = abs(x) // abs(y)
+    return q if (x < 0) == (y < 0) else -q
 
 
 class FileExpander:
